@@ -19,7 +19,7 @@ CHECKS = {
          "Trusts M-eval's environment model. Bounded: 2 closures x 2 variables (3x3 in one family), nesting depth 3.",
          "5/C06"),
  "C08": ("bounded-exhaustive program enumeration vs the reference evaluator M-eval; disagreements attributed to listed findings only through trigger predicates on the model's own execution",
-         "Every nest (depth 2 quick / 3 thorough) of try/catch/finally forms, loops, calls and blocks with every leaf action (throws of 4 value kinds, 6 failing built-ins, deep callee throws, a callee that itself returns through try/finally, return, break, continue), including nests whose focus sits inside a finally block while a return is pending, and every sequential pair of nests, run on the real VM and compared with M-eval's block trace and outcome.",
+         "Every nest (depth 2 quick / 3 thorough) of try/catch/finally forms, loops, calls and blocks with every leaf action (throws of 4 value kinds, 6 failing built-ins, deep callee throws, callees that return through try/finally or whose finally block itself returns while a return / an exception is waiting, return, break, continue - also out of finally blocks), including nests whose focus sits inside a finally block while a return is pending, and every sequential pair of nests, run on the real VM and compared with M-eval's block trace and outcome.",
          "Three open findings (known_findings.json: break/continue out of a try body, return out of a nested try, abrupt exit from a catch that has a finally) are attributed by trigger predicates that fire on exactly those constructs in the model's own execution; the trigger-free population must agree exactly. Bounded by nest depth.",
          "5/C08"),
  "C07": ("bounded-exhaustive program enumeration vs the reference evaluator M-eval (class chain walks, lexical super)",
@@ -43,7 +43,7 @@ CHECKS = {
          "Trusts M-str (written over bytes, independent of std's char_indices/split/replace except to_num). (Q) quirks transcribed: see DESIGN.md Appendix A.",
          "5/C13"),
  "C19": ("bounded-exhaustive input enumeration vs M-num/M-lex (exact integer arithmetic for nearestness; hand-expanded shortest digits)",
-         "Every double +-(1+j/2^m)*2^e for all exponents (normal and subnormal), m=4/7, plus boundaries (10^k neighbours for all k, 2^53/2^63 neighbours, subnormal limits, zeros, NaN, inf) built exactly from integers and powers of two: print->parse returns the identical number, text equals the model's, interpolation agrees; every literal digits[.digits] up to 5/6 characters equals the exactly constructed nearest double; every digit string up to 3 digits in each `.`-lookahead context (positive by construction, negative by expected compile error).",
+         "Every double +-(1+j/2^m)*2^e for all exponents (normal and subnormal), m=4/7, plus boundaries (10^k neighbours for all k, 2^53/2^63 neighbours, subnormal limits, zeros, NaN, inf) built exactly from integers and powers of two: print->parse returns the identical number, text equals the model's, interpolation agrees; every literal digits[.digits] up to 5/6 characters, 1280 integer literals of 15-19 digits and the printed text of every enumerated double used as a literal equal the exactly constructed nearest double; every digit string up to 3 digits in each `.`-lookahead context (positive by construction, negative by expected compile error).",
          "Where two shortest digit strings round-trip, the printed text is not compared (tie-breaking is not fixed by the property). Long-literal nearestness relies on the host parser.",
          "5/C19"),
  "C11": ("explicit-state breadth-first search over intern/probe sequences on the real intern table (canonical state = its slot array) + exhaustive producer-pair enumeration through the language",
@@ -51,15 +51,15 @@ CHECKS = {
          "Level 1 uses a feature-guarded wrapper mirroring new_gc_obj_string with caller-chosen hashes. The language has no computed field/method names; selection is exercised through maps, tuples, globals.",
          "5/C11"),
  "C12": ("explicit-state breadth-first search over HashMap operation sequences with reference M-map; every transition executed on the real map",
-         "BFS (<=3/4 live entries, depth 4/5) from the empty map and 12 literals over insert/remove with every key of a 25-key pool (key objects reused across operations in one family) (1 vs 1.0, 0 vs -0, separately built equal tuples/strings/ranges, nested tuples, NaN, a class, 5 unhashables) and clear; from a rebuilt copy of every state every operation is executed and followed by a full order-independent dump; compared with M-eval's association-list map.",
+         "BFS (<=3/4 live entries, depth 4/5) from the empty map and 12 literals over insert/remove with every key of a 25-key pool (key objects reused across operations in one family) (1 vs 1.0, 0 vs -0, separately built equal tuples/strings/ranges, nested tuples, NaN, a class, 5 unhashables) and clear; from a rebuilt copy of every state every operation is executed and followed by a full order-independent dump, then by a write, a read and a removal of a key outside the pool and a second dump (the map must still work after a rejected operation); compared with M-eval's association-list map.",
          "keys/values/items are compared through order-independent probes. An overwritten entry keeps the first-inserted key object.",
          "5/C12"),
  "C09": ("explicit-state breadth-first search over the coroutine model M-fiber; every transition replayed on the real VM",
-         "For every pair of scripted fibers (fiber 0: all scripts up to 2/3 actions over a 10-action alphabet under 7 wrappers incl. try/finally around the script and the script inside a finally block, with/without parameter; fiber 1: representative or all short scripts) BFS over main-program action sequences (call with 0/1/2 arguments, has_finished, top-level yield) up to length 5/6 with canonical hashing of the model state (status, continuation, handler stack, captured counter per fiber); each of the ~170k (quick) transitions is replayed as a program (definitions + action path) whose printed labels and outcome must equal the model's; the active-fiber/raw-pointer agreement monitor runs at every instruction fetch.",
+         "For every pair of scripted fibers (fiber 0: all scripts up to 2/3 actions over a 10-action alphabet under 7 wrappers incl. try/finally around the script and the script inside a finally block, with/without parameter; fiber 1: representative or all short scripts) BFS over main-program action sequences (call with 0/1/2 arguments, has_finished, top-level yield) up to length 5/6 with canonical hashing of the model state (status, continuation, handler stack, captured counter per fiber); states reached by an action that was reported as an error keep a marker and are explored further with that action in the path (errors must leave every fiber untouched); each of the ~400k (quick) transitions is replayed as a program (definitions + action path) whose printed labels and outcome must equal the model's; the active-fiber/raw-pointer agreement monitor runs at every instruction fetch. Plain-wrapper transitions are replayed a second time with the fibers defined in an imported module and a main program that uses a global of its own after every action.",
          "Exceptions leaving a fiber's outermost frame end the run (fixed by the repository's own script). Which error class wins when a running fiber is re-entered with a wrong argument count is not fixed by the property and is left out.",
          "5/C09"),
  "C15": ("explicit-state breadth-first search over snippet histories with reference M-repl; every transition replayed on a fresh real interpreter",
-         "BFS over histories (length 5/8) of 28 snippets (definitions/uses, compile error, uncaught throws from top level, nested calls, a fiber, a chain of two fibers, try/finally, a half-declared class, a built-in inside a method, after a closure escaped from the failing call frame / fiber; clean try/finally and try/catch probes, probes of the dead fibers and of the escaped closures, a fiber suspended inside try/finally and resumed later, import and module mutation, reset) with canonical model state; each transition is the shortest history to its source state plus the snippet, run on one real Vm; per-snippet output and outcome must equal the model's; no panic; swept objects are quarantined and any touch of freed memory is a violation.",
+         "BFS over histories (length 5/8) of 33 snippets (assignments to undefined globals and a failing initialiser, probed for names that must not exist; definitions/uses, compile error, uncaught throws from top level, nested calls, a fiber, a chain of two fibers, try/finally, a half-declared class, a built-in inside a method, after a closure escaped from the failing call frame / fiber; clean try/finally and try/catch probes, probes of the dead fibers and of the escaped closures, a fiber suspended inside try/finally and resumed later, import and module mutation, reset) with canonical model state; each transition is the shortest history to its source state plus the snippet, run on one real Vm; per-snippet output and outcome must equal the model's; no panic; a second family runs every history up to length 3/4 over the whole alphabet without merging by model state (a failing snippet leaves the model state unchanged, so the merging search never runs anything after it); swept objects are quarantined and any touch of freed memory is a violation.",
          "Counters bounded to keep the state space finite.",
          "5/C15"),
  "C04": ("explicit-state reachability over the abstract (pc, operand-stack height) space of every compiled function (M-vm) + trace conformance + limit-sized program enumeration",
@@ -75,7 +75,7 @@ CHECKS = {
          "Two open findings (KF-C02-01 natives through derived classes, KF-C02-02 equality of distinct cyclic containers) attributed by receiver kind + panic message / by case identity. Every other corpus of this framework also runs on the checked runner, where a panic is a mismatch.",
          "5/C02"),
  "C10": ("exhaustive enumeration of build configurations x programs on really built binaries",
-         "The dev profile and the release profile with none/all (quick) or every one of the 32 subsets (thorough) of the five feature switches are built from /repo's working tree with the hooks OFF; every repository script (with its module table) and every 4th/2nd program of the generator corpora runs on every configuration; printed lines and outcome (addresses normalised) must be identical across configurations.",
+         "The dev profile and the release profile with none/all (quick) or every one of the 32 subsets (thorough) of the five feature switches are built from /repo's working tree with the hooks OFF; every repository script (with its module table), every 4th/2nd program of the generator corpora, C01's heap-shape programs (chains <= 1) and a loop-churn family (8 iterables x 7 kinds of fresh objects allocated in the loop body) run on every configuration; printed lines and outcome (addresses normalised) must be identical across configurations.",
          "Programs on which the checked build panics are excluded (C02's verdict; undefined behaviour in the optimised build). The fiber/raw-pointer agreement monitor runs in C09's 170k replays.",
          "5/C10"),
  "C16": ("exhaustive enumeration of loop programs + runtime invariant monitor over every allocation event of the optimised build",
